@@ -182,7 +182,15 @@ func init() {
 	}
 
 	// formatting of instants is never the subject of a property: a fixed placeholder
-	symExternals["(time.Time).Format"] = func(fr *frame, args []value) value { return "2006-01-02T15:04:05Z" }
+	// (a concrete instant with a concrete layout is formatted by the real time package, in UTC)
+	symExternals["(time.Time).Format"] = func(fr *frame, args []value) value {
+		if layout, ok := args[1].(string); ok {
+			if _, ns := timeParts(args[0]); ns.Op == "const" {
+				return time.Unix(0, int64(ns.Val)).UTC().Format(layout)
+			}
+		}
+		return "2006-01-02T15:04:05Z"
+	}
 	symExternals["(time.Time).String"] = func(fr *frame, args []value) value { return "2006-01-02 15:04:05 +0000 UTC" }
 	symExternals["time.Since"] = func(fr *frame, args []value) value {
 		now := symExternals["time.Now"](fr, nil)
